@@ -87,6 +87,15 @@ def campaign(c):
                 if not (impl['outcome'][0] == 'failure' and impl['outcome'][1] == cls):
                     c.violation('lit:port-accepted', 'port %d above 65535 (spelling %r) was not rejected: %s' % (p, sp, impl['outcome'],), rep)
             c.case(('port', p, sp), dict(kind='port', p=p, sp=sp) if c.evaluations % 50 == 0 else None)
+    # negative ports: `-N` is lexed as one integer token; it is not a port, whatever it is congruent to
+    for neg in ['-0', '-1', '-80', '-65456', '-65535', '-65536', '-00']:
+        for sp, cls in ((':', 'Parse'), ('/', 'Type')):
+            src = ('import ipv4;\nipv4::udp::unicast(10.0.0.1%s1000, 10.0.0.2%s%s, "x");\n' % (sp, sp, neg)).encode()
+            impl, model = progdiff.run_both(c, src)
+            progdiff.compare(c, src, impl, model, 'socket-negative')
+            if impl['outcome'][0] != 'failure':
+                c.violation('lit:port-accepted', 'negative port %s (spelling %r) was not rejected: %s' % (neg, sp, impl['outcome'],), dict(src=src.decode()))
+            c.case(('negport', neg, sp), dict(kind='negative-port', p=neg, sp=sp))
     # hex sections
     seps = [' ', ':', '.', '_', '-', "'", '`', '\t']
     for i in range(150 if c.quick else 4000):
